@@ -161,15 +161,20 @@ func (w *World) do1(a Action) {
 	case "start":
 		tr.rec("api", int64(in.idx), aStart, 0, 0, 0, 0, gid())
 		sctx, scancel := context.WithCancel(context.Background())
-		in.mu.Lock()
-		in.startCancel = scancel
-		in.mu.Unlock()
 		err := in.el.Start(sctx)
 		r := int64(0)
 		if errors.Is(err, leader.ErrAlreadyStarted) {
 			r = 1
 		} else if err != nil {
 			r = 2
+		}
+		if err == nil {
+			// only a run that was started is ended by a later cancel_ctx
+			in.mu.Lock()
+			in.startCancel = scancel
+			in.mu.Unlock()
+		} else {
+			scancel()
 		}
 		tr.rec("apiret", int64(in.idx), aStart, r, 0, gid())
 	case "stop":
